@@ -103,6 +103,23 @@ class opened:
         return False
 
 
+def helper_sum(xs, start=0):
+    total = start
+    for x in xs:
+        if x == 9:
+            raise ValueError("nine")
+        total += head([x])
+    return total
+
+
+def f_inline(xs, k):
+    if k in (2, 4):
+        s = helper_sum(xs, start=k)
+    else:
+        s = helper_sum(xs)
+    return s + 1
+
+
 EXC = {"IndexError": "Ex.index", "ValueError": "Ex.value"}
 
 
@@ -129,6 +146,8 @@ CASES = [
      E(), "xfo"),
     (f_while_pop, "(xs : %s) : Except Ex Int" % LI, {"xs": "xs"}, E(multi=POPM, fuel="(xs.length + 1)"), "x"),
     (f_with, "(xs : %s) : Except Ex Int" % LI, {"xs": "xs"}, E(withs=[("opened($x)", "{x}")]), "x"),
+    # a helper of the same module without a rule: translated and inlined at both call sites; `k in (2, 4)`
+    (f_inline, "(xs : %s) (k : Int) : Except Ex Int" % LI, {"xs": "xs", "k": "k"}, E(expr=[("[$x]", "[{x}]")]), "xk"),
 ]
 LISTS = [[], [1], [5], [2, 4], [3, 1, 4, 1, 5], [6, 2, 9, 0, 7], [0, 0], [-1, 3, 8]]
 KS = [0, 2, 4, 9]
